@@ -113,6 +113,8 @@ def _gen(ctx, prop):
         for _ in range(n_rnd):
             out.append((scn, 'rnd', sc.gen_random(sc.SCENARIOS[scn], rng, rng.choice([6, 10, 14, 18]),
                                                   rng.choice(wsets))))
+        for _ in range(n_rnd // 2):
+            out.append((scn, 'tuples', sc.gen_tuples(sc.SCENARIOS[scn], rng, rng.choice([3, 4, 5]))))
     return out
 
 
